@@ -7,6 +7,7 @@ import (
 	_ "verif/props/c04"
 	_ "verif/props/c05"
 	_ "verif/props/c06"
+	_ "verif/props/c07"
 	_ "verif/props/c09"
 	_ "verif/props/c11"
 	_ "verif/props/c12"
